@@ -14,6 +14,7 @@ from torch.nn.utils import parameters_to_vector  # noqa: E402
 FILES = ["qucumber/nn_states/neural_state.py", "qucumber/nn_states/complex_wavefunction.py", "qucumber/nn_states/density_matrix.py",
          "qucumber/nn_states/positive_wavefunction.py", "qucumber/rbm/binary_rbm.py", "qucumber/rbm/purification_rbm.py",
          "qucumber/utils/unitaries.py", "qucumber/utils/cplx.py"]
+REQUIRED_THEOREMS = ['C03_energy_grad', 'C03_energy_grad_prbm', 'C03_logZ_grad', 'C03_exact_gradient_positive', 'C03_sample_gradient_complex', 'C03_exact_gradient_complex', 'C03_sample_gradient_density', 'C03_exact_gradient_density', 'C03_batch_is_sum_complex', 'C03_batch_is_sum_density']
 RULE = ("case = (state kind, n, h[, a], parameters = scale*N(0,1) with all biases non-zero, dataset of random basis states with repeats, "
         "per-sample basis strings over {X,Y,Z} incl. all-Z rows and mixed rows in one batch); every public gradient method compared with the model "
         "and with central finite differences of an independently written NLL; permutation/split invariance; 1-D call form; "
